@@ -37,7 +37,11 @@ func (s *Slice[T]) Unshift(elements ...T) int {
 	s.mu.Lock()
 	defer s.mu.Unlock()
 
-	s.elements = append(elements, s.elements...)
+	// build the result in a fresh array: appending onto `elements` would
+	// keep (and later write through) the caller's backing array
+	merged := make([]T, 0, len(elements)+len(s.elements))
+	merged = append(merged, elements...)
+	s.elements = append(merged, s.elements...)
 	return len(s.elements)
 }
 
